@@ -96,10 +96,16 @@ def do_import(pid, x, src_root='/tmp/wt_out', base=None):
 def do_run(name, check_id=None, tier='quick', seed='1'):
   dst = os.path.join(VERIF, 'seeded', name)
   pid = check_id or name.split('_')[0]
-  wt = mk_worktree(f'run_{name}_{pid}_{os.getpid()}', 'HEAD')
+  meta = {}
+  if os.path.exists(f'{dst}/meta.json'):
+    meta = json.load(open(f'{dst}/meta.json'))
+  # `run_on_base`: the change needs a defect of the base tree that was repaired later, so it is
+  # evaluated on the commit it was written against (see DESIGN.md)
+  rev = meta.get('base_commit') if meta.get('run_on_base') else 'HEAD'
+  wt = mk_worktree(f'run_{name}_{pid}_{os.getpid()}', rev)
   t0 = time.time()
   try:
-    patch = f'{dst}/patch_head.diff' if os.path.exists(f'{dst}/patch_head.diff') else f'{dst}/patch.diff'
+    patch = f'{dst}/patch_head.diff' if (os.path.exists(f'{dst}/patch_head.diff') and rev == 'HEAD') else f'{dst}/patch.diff'
     rc, out = apply_patch(wt, patch)
     if rc:
       print(name, 'PATCH DOES NOT APPLY to HEAD:', out[-300:])
